@@ -591,10 +591,28 @@ class Env:
             return iobj[n]
         return mk_proof(graph["root"])
 
+    # what the GLOBAL theory holds while a different Theory object does the checking: names the
+    # object under test lacks, names it has with another statement; `verif_t1` is missing here
+    DECOY = [("verif_missing", [[], 0]), ("verif_t0", [[], 5]), ("verif_t2", [[], 3]), ("verif_a", [[], 2]), ("verif_b", [[], 1]),
+             ("verif_n0", [[], 0]), ("verif_new", [[], 1]), ("verif_c", [[], 0]), ("verif_last", [[], 2])]
+
     def fresh_theory(self, thms):
-        self.theory.thy = self.theory.EmptyTheory()
+        """The Theory object under test (`self.T`) is built by hand and, three times out of four, is
+        NOT the object bound to the global `kernel.theory.thy`: the global then is a decoy that
+        differs from it on the names the cases cite (a checker that consults the global by mistake
+        gets other answers).  Every fourth call the object under test is the global one, as usual."""
+        T = self.theory.EmptyTheory()
         for name, s in thms:
-            self.theory.thy.add_theorem(name, self.thm(mk(s[0], s[1])))
+            T.add_theorem(name, self.thm(mk(s[0], s[1])))
+        self.T = T
+        self.ncalls = getattr(self, "ncalls", 0) + 1
+        if self.ncalls % 4 == 0:
+            self.theory.thy = T
+        else:
+            decoy = self.theory.EmptyTheory()
+            for name, s in self.DECOY:
+                decoy.add_theorem(name, self.thm(mk(s[0], s[1])))
+            self.theory.thy = decoy
 
     def tree(self, prf, pre=(), depth=0):
         """Statements left in the proof object at the positions the checker walks (top level and the
@@ -640,7 +658,7 @@ class Env:
         self.log = []
         try:
             with time_limit(30):
-                th = self.theory.check_proof(prf, rpt, no_gaps=ng, compute_only=co, check_level=lvl)
+                th = self.T.check_proof(prf, rpt, no_gaps=ng, compute_only=co, check_level=lvl)
         except Timeout:
             raise
         except BaseException as e:  # noqa
@@ -664,7 +682,7 @@ class Env:
                 exts.append(self.extension.Theorem(name, self.thm(mk(s[0], s[1])), None if items is None else self.proof(items)))
         err = None
         rep = None
-        thy = self.theory.thy
+        thy = self.T
         self.installed_log = []
         orig_add = thy.add_theorem
 
@@ -1160,6 +1178,40 @@ def gen_exh_gaps():
                         if tail:
                             its.append([[1], "verif_id", None, [[0]], None, None])
                         yield {"cfg": [ng, co, lvl], "thms": [], "items": its}
+
+
+def gen_exh_stated_kinds():
+    """One item of every kind that yields (or carries) a sequent -- variable, theorem, assume, every
+    toy macro, an expanded macro, a block, a placeholder, an empty line -- x how its STATED sequent
+    relates to what the rule yields (absent, equal, one more hypothesis, one hypothesis fewer, another
+    conclusion, ill-typed), alone and followed by a line that cites it x no_gaps/compute_only/level."""
+    thms = [["verif_t0", [[], 0]], ["verif_t2", [[2], 3]]]
+    b = mk([1, 2], 3)
+    kinds = [
+        ("variable", lambda th: [[0], "variable", 1, [], th, None], mk([], 201)),
+        ("variable-bad", lambda th: [[0], "variable", None, [], th, None], None),
+        ("theorem", lambda th: [[0], "theorem", "verif_t0", [], th, None], mk([], 0)),
+        ("theorem-missing", lambda th: [[0], "theorem", "verif_missing", [], th, None], None),
+        ("assume", lambda th: [[0], "assume", 2, [], th, None], mk([2], 2)),
+        ("verif_ax", lambda th: [[0], "verif_ax", [list(b[0]), b[1]], [], th, None], b),
+        ("verif_join", lambda th: [[0], "verif_join", 3, [], th, None], mk([], 3)),
+        ("verif_exp", lambda th: [[0], "verif_exp", [[list(b[0]), b[1]], [[[0, 0], "verif_ax", [list(b[0]), b[1]], [], None, None]]], [], th, None], b),
+        ("subproof", lambda th: [[0], "subproof", None, [], th, [[[0, 0], "verif_ax", [list(b[0]), b[1]], [], None, None]]], b),
+        ("sorry", lambda th: [[0], "sorry", None, [], th, None], b),
+        ("empty", lambda th: [[0], "", None, [], th, None], b),
+        ("unknown", lambda th: [[0], "verif_nope", None, [], th, None], None),
+    ]
+    for name, mkitem, comp in kinds:
+        c = comp if comp is not None else b
+        stated = [None, [list(c[0]), c[1]], [list(c[0]) + [5], c[1]], [list(c[0])[1:], c[1]], [list(c[0]), c[1] + 1],
+                  [list(c[0]) + [100], c[1]], [[], 4]]
+        for th in stated:
+            for tail in (False, True):
+                items = [mkitem(th)]
+                if tail:
+                    items.append([[1], "verif_id", None, [[0]], None, None])
+                for cfg in ([False, False, 0], [True, False, 0], [False, True, 0], [True, False, 1], [False, True, 1]):
+                    yield {"cfg": cfg, "thms": thms, "items": json.loads(json.dumps(items))}
 
 
 def gen_exh_stated():
@@ -1803,6 +1855,14 @@ def stream_real(ctx, env):
     rng = ctx.rng("real")
     V = [Var(n, BoolType) for n in "ABC"]
     false = env.Const("false", BoolType)
+    from kernel.type import TVar
+    # the Theory object that does the checking is NOT the global one; the global is a decoy that
+    # has a name the object lacks and another statement for a name both have
+    Treal = theory.EmptyTheory()
+    Treal.add_theorem("verif_real", Thm(Implies(V[0], V[0])))
+    decoy = theory.EmptyTheory()
+    decoy.add_theorem("verif_decoy", Thm(false))
+    decoy.add_theorem("verif_real", Thm(false))
 
     def build(items):
         prf = Proof()
@@ -1826,7 +1886,16 @@ def stream_real(ctx, env):
                         return "gap-tolerated-with-no-gaps"
                     verified[pos] = th
                     continue
-                if rule == "subproof":
+                if rule == "theorem":
+                    if not Treal.has_theorem(args):
+                        return "rule-failed"
+                    comp = Treal.get_theorem(args)
+                elif rule == "variable":
+                    try:
+                        comp = Thm.mk_VAR(Var(*args))
+                    except Exception:
+                        return "rule-failed"
+                elif rule == "subproof":
                     r = block(sub or [], pos)
                     if r:
                         return r
@@ -1894,6 +1963,13 @@ def stream_real(ctx, env):
         ("D4", [[[0], "", None, [], Thm(false), None], [[1], "substitution", Inst(), [[0]], None, None]]),
         ("D5", [[[0], "subproof", None, [], None, [[[0, 0], "", None, [], Thm(false), None]]]]),
         ("fwd", [[[0], "substitution", Inst(), [[1]], Thm(false), None], [[1], "substitution", Inst(), [[0]], Thm(false), None]]),
+        ("thm-only-in-global", [[[0], "theorem", "verif_decoy", [], None, None]]),
+        ("thm-other-statement-in-global", [[[0], "theorem", "verif_real", [], Thm(false), None]]),
+        ("thm-own", [[[0], "theorem", "verif_real", [], None, None], [[1], "substitution", Inst(), [[0]], None, None]]),
+        ("var-stated-other", [[[0], "variable", ("x", TVar("a")), [], Thm(false), None], [[1], "substitution", Inst(), [[0]], None, None]]),
+        ("var-stated-other-var", [[[0], "variable", ("x", TVar("a")), [], Thm.mk_VAR(Var("y", TVar("a"))), None]]),
+        ("var-stated-exact", [[[0], "variable", ("x", TVar("a")), [], Thm.mk_VAR(Var("x", TVar("a"))), None]]),
+        ("var-unstated", [[[0], "variable", ("x", TVar("a")), [], None, None]]),
     ]
     cases = [(n, its) for n, its in fixed]
     shared_cases = []
@@ -1906,12 +1982,12 @@ def stream_real(ctx, env):
         prf = Proof()
         prf.items = [blk, fil, X] if order == 0 else [X, blk]
         shared_cases.append(("B1-shared-%d" % order, prf))
-    theory.thy = theory.EmptyTheory()
+    theory.thy = decoy
     for name, prf in shared_cases:
         for ng in (False, True):
             try:
                 with time_limit(30):
-                    res = theory.check_proof(prf, no_gaps=ng)
+                    res = Treal.check_proof(prf, no_gaps=ng)
             except Timeout:
                 raise
             except Exception:  # noqa
@@ -1936,13 +2012,13 @@ def stream_real(ctx, env):
             else:
                 its[k][3][rng.randrange(len(its[k][3]))] = tgt
         cases.append(("rand%d" % i, its))
-    theory.thy = theory.EmptyTheory()
+    theory.thy = decoy
     for name, items in cases:
         for ng in (False, True):
             prf = build(items)
             try:
                 with time_limit(30):
-                    res = theory.check_proof(prf, no_gaps=ng)
+                    res = Treal.check_proof(prf, no_gaps=ng)
                 acc = True
             except Timeout:
                 raise
@@ -1986,7 +2062,9 @@ def run(ctx):
         "(a) every flat proof of <=3 items with <=2 citations each from {-1,0,1,2,0.0,()} x 4 id assignments x 3 statement patterns "
         "(thorough: all; quick: a random sample), (b) every [a, block, b] with a subproof or an expansion of two items and <=1 citation "
         "per item from 10 candidates, every [block, block, b] with citations into the closed first block, one placeholder at each of 10 kinds "
-        "of place x no_gaps x compute_only x level, (c) chains of <=3 items x 6 ways a statement relates to what the rule yields x 5 configurations, "
+        "of place x no_gaps x compute_only x level, one item of every kind (variable, theorem, assume, toy macros, expanded macro, block, placeholder, empty line, unknown rule) x 7 "
+        "stated sequents (absent/equal/weaker/stronger/other conclusion/ill-typed/unrelated) x 5 configurations, alone and cited, "
+        "(c) chains of <=3 items x 6 ways a statement relates to what the rule yields x 5 configurations, "
         "(d) random proofs of up to 12 items, nested blocks and expansions, then perturbed (ids, citations, statements, structure); "
         "checked_extend on all pairs (theorem, proof) of a pool and on short extension lists. non-trivial = at least two items and one "
         "citation; distinct by the whole case.")
@@ -2008,6 +2086,9 @@ def run(ctx):
         "Python->Lean translator for ItemID / Thm.can_prove (in harness/props/c02.py) and the Python primitives of Holpy/C02/Py.lean",
         "the rule layer is a parameter of the model: real primitive rules and real macros are not modelled here (C01, C04)"]
     ctx.assumptions += [
+        "the Theory object under test is built by hand and, 3 runs out of 4, is not the object bound to kernel.theory.thy; the global then is a "
+        "decoy with other theorems (names missing / extra / same name with another statement). The global macro table necessarily holds the "
+        "toy macros (there is no per-theory table); logic.context is not consulted by the checker and is not perturbed",
         "a proof object whose parts are shared between places reaches the model as its unfolding (argued in Model.lean, tested by the shared-* streams)",
         "Python's recursion limit is modelled by fuel; theorems hold for every fuel",
         "compute_only=True trusts stated sequents by design: compute_only_computes and the oracle say what is derived FROM the trusted statements, nothing about them"]
@@ -2046,6 +2127,7 @@ def run(ctx):
         stream_check(ctx, env, list(gen_exh_gaps()), "exh-gaps", heap=True)
         stream_check(ctx, env, list(gen_shared_directed()), "shared-directed", heap=True)
         stream_check(ctx, env, gen_shared_random(ctx.rng("shared"), ctx.scale(1000, 20000)), "shared-random", heap=True)
+        stream_check(ctx, env, list(gen_exh_stated_kinds()), "exh-stated-kinds", heap=True)
         st = list(gen_exh_stated())
         if ctx.tier == "quick":
             st = ctx.rng("stated").sample(st, min(len(st), 3000))
@@ -2165,7 +2247,8 @@ MANIFEST = {
             "unfolding). TIE: differential runs on generated proof objects over a toy rule set (exhaustive small shapes + random; ids != "
             "positions, negative and empty ids, forward/self/closed-block citations, nested placeholders, shared/cyclic objects, twins, "
             "compute_only, levels 0-3, extension lists with overwritten names); accept/refuse, kind of refusal and every output of an "
-            "accepted run are compared, never message texts. Every proof the real checker accepts (toy rules, all modes, and real primitive "
+            "accepted run are compared, never message texts. check_proof and checked_extend are called on a Theory object that is not the "
+            "global kernel.theory.thy (the global is a decoy differing on the cited names), as server/monitor.py does with snapshots. Every proof the real checker accepts (toy rules, all modes, and real primitive "
             "rules) is judged by an independent reference checker.",
     "note": "Trusted: Lean kernel, propext/Classical.choice/Quot.sound, the harness (generators, toy rule set implemented on both sides, "
             "reference checker, translator). The rule layer is abstract: real primitive rules and macro bodies are C01/C04. "
